@@ -1,10 +1,21 @@
 #!/bin/sh
 # A whole-tree behaviour-preserving twin: copy /repo/sigma to a scratch directory, reformat it with another line length
 # (black -l 140), run every check on the copy. Every check must exit 0 and match the same known findings.
-# usage: tools/format_twin.sh   (scratch copy is removed afterwards)
+# usage: tools/format_twin.sh [--unparse]   (scratch copy is removed afterwards)
 d=$(mktemp -d /tmp/fmt_twin.XXXXXX)
 cp -r /repo/sigma "$d/sigma"; cp /repo/pyproject.toml "$d/" 2>/dev/null
-(cd "$d" && /venv/bin/python -m black -q -l 140 sigma)
+if [ "$1" = "--unparse" ]; then
+  # second twin: every module replaced by ast.unparse(ast.parse(source)) — comments gone, quotes/parentheses normalised
+  /venv/bin/python - "$d" <<'PY'
+import ast, glob, sys
+for f in glob.glob(sys.argv[1] + "/sigma/**/*.py", recursive=True):
+    if "/data/" in f:
+        continue
+    open(f, "w").write(ast.unparse(ast.parse(open(f).read())) + "\n")
+PY
+else
+  (cd "$d" && /venv/bin/python -m black -q -l 140 sigma)
+fi
 echo "files changed by reformatting: $(diff -rq /repo/sigma "$d/sigma" | wc -l)"
 rc=0
 for i in 01 02 03 04 05 06 07 08 09 10 11 12 13 14 15 16 17 18 19 20; do
